@@ -1,193 +1,10 @@
 import IcyVerif.Lemmas.Sixel
-import IcyVerif.Lemmas.SixelRaster
 set_option linter.unusedSimpArgs false
 set_option linter.unusedVariables false
-/-! The sixel cursor moves by at most one per `parse_sixel_data` call, so as long as the repeat counts
-    are bounded the three cursor-arithmetic panic sites are out of reach. -/
+/-! The cursor overflow is reachable — and is an error since the three `fix:` commits: a closed form of `!<m>-`
+    (the repeat loop really runs `m` times; `decide` cannot evaluate 357 913 942 iterations). -/
 namespace IcyVerif.Sixel
 
-/-- outcome of a step from a good state whose cursor is far enough from `i32::MAX`:
-    the cursor moved by at most `k`, and no panic at all -/
-def CapOut (s : St) (k : Nat) : Out St → Prop
-  | .ok s' => Good s' ∧ s'.x ≤ s.x + k ∧ s'.y ≤ s.y + k
-  | .panic _ => False
-  | _ => True
-
-theorem translate_cap {s : St} (g : Good s) (hx : s.x + 1 ≤ i32Max) (hy : s.y * 6 + 6 ≤ i32Max) (ch : Char) :
-    CapOut s 1 (translate s ch) := by
-  unfold translate
-  by_cases h1 : ch.toNat < 63
-  · simp only [h1, if_true]; trivial
-  simp only [h1, if_false]
-  by_cases h2 : s.palLen % 4294967296 = 0
-  · have := g.palPos; have := g.palLe; simp only [hugeLimit] at *; omega
-  simp only [h2, if_false]
-  have h3 : ¬ s.y * 6 + 6 > i32Max := by omega
-  simp only [h3, if_false]
-  have hg := growRows_spec g.rows g.height (lastLineOf s)
-  revert hg
-  cases growRows s.rows (lastLineOf s) with
-  | ok rows =>
-    intro ⟨hr, hl, hlen, _⟩
-    simp only [Out.andThen]
-    have := pixelLoop_spec (ch.toNat - 63) (s.y * 6) (lastLineOf s) s.x [0, 1, 2, 3, 4, 5] rows hr hl
-    revert this
-    cases pixelLoop (ch.toNat - 63) (s.y * 6) (lastLineOf s) s.x [0, 1, 2, 3, 4, 5] rows with
-    | ok rows' =>
-      intro ⟨h1, h2⟩
-      simp only
-      have h4 : ¬ s.x + 1 > i32Max := by omega
-      simp only [h4, if_false]
-      exact ⟨⟨h1, by simp only; omega, g.palPos, g.palLe⟩, Nat.le_refl _, by simp only; omega⟩
-    | err e => intro h; exact h.elim
-    | panic p => intro h; exact h.elim
-    | huge => intro _; trivial
-  | err e => intro h; exact h.elim
-  | panic p => intro h; exact h.elim
-  | huge => intro _; trivial
-
-theorem sixelData_cap {s : St} (g : Good s) (hx : s.x + 1 ≤ i32Max) (hy : s.y * 6 + 6 ≤ i32Max) (ch : Char) :
-    CapOut s 1 (sixelData s ch) := by
-  unfold sixelData
-  split
-  · exact ⟨⟨g.rows, g.height, g.palPos, g.palLe⟩, by simp only; omega, by simp only; omega⟩
-  split
-  · exact ⟨⟨g.rows, g.height, g.palPos, g.palLe⟩, by simp only; omega, by simp only; omega⟩
-  split
-  · have : ¬ s.y + 1 > i32Max := by omega
-    simp only [this, if_false]
-    exact ⟨⟨g.rows, g.height, g.palPos, g.palLe⟩, by simp only; omega, by simp only; omega⟩
-  split
-  · exact ⟨⟨g.rows, g.height, g.palPos, g.palLe⟩, by simp only; omega, by simp only; omega⟩
-  split
-  · exact ⟨⟨g.rows, g.height, g.palPos, g.palLe⟩, by simp only; omega, by simp only; omega⟩
-  split
-  · exact ⟨g, by omega, by omega⟩
-  · exact translate_cap g hx hy ch
-
-theorem repeatN_cap (ch : Char) (n : Nat) {s : St} (g : Good s) (hx : s.x + n ≤ i32Max)
-    (hy : (s.y + n) * 6 ≤ i32Max) : CapOut s n (repeatN (fun t => sixelData t ch) n s) := by
-  induction n generalizing s with
-  | zero => exact ⟨g, Nat.le_refl _, Nat.le_refl _⟩
-  | succ n ih =>
-    rw [repeatN_succ]
-    have h1 := sixelData_cap g (by omega) (by omega) ch
-    revert h1
-    cases sixelData s ch with
-    | ok s1 =>
-      intro ⟨g1, hx1, hy1⟩
-      simp only [Out.andThen]
-      have h2 := ih g1 (by omega) (by omega)
-      revert h2
-      cases repeatN (fun t => sixelData t ch) n s1 with
-      | ok s2 => intro ⟨g2, hx2, hy2⟩; exact ⟨g2, by omega, by omega⟩
-      | err e => intro _; trivial
-      | panic p => intro h; exact h
-      | huge => intro _; trivial
-    | err e => intro _; trivial
-    | panic p => intro h; exact h.elim
-    | huge => intro _; trivial
-
-theorem capOut_mono {s : St} {k k' : Nat} {o : Out St} (h : CapOut s k o) (hk : k ≤ k') : CapOut s k' o := by
-  cases o with
-  | ok s' => exact ⟨h.1, by have := h.2.1; omega, by have := h.2.2; omega⟩
-  | err e => trivial
-  | panic p => exact h
-  | huge => trivial
-
-/-- continue with a step that does not move the cursor further than `k2` -/
-theorem andThen_cap {s : St} {k1 k2 : Nat} {o : Out St} {f : St → Out St} (ho : CapOut s k1 o)
-    (hf : ∀ t, Good t → t.x ≤ s.x + k1 → t.y ≤ s.y + k1 → CapOut t k2 (f t)) : CapOut s (k1 + k2) (o.andThen f) := by
-  cases o with
-  | ok t =>
-    have := hf t ho.1 ho.2.1 ho.2.2
-    simp only [Out.andThen]
-    revert this
-    cases f t with
-    | ok u => intro ⟨g, hx, hy⟩; exact ⟨g, by have := ho.2.1; omega, by have := ho.2.2; omega⟩
-    | err e => intro _; trivial
-    | panic p => intro h; exact h
-    | huge => intro _; trivial
-  | err e => trivial
-  | panic p => exact ho
-  | huge => trivial
-
-theorem armOK_cap {s : St} {o : Out St} (h : ArmOK s o) : CapOut s 0 o := by
-  cases o with
-  | ok s' => exact ⟨h.1, by have := h.2.1; omega, by have := h.2.2; omega⟩
-  | err e => trivial
-  | panic p => exact h
-  | huge => trivial
-
-theorem colorArm_cap {s : St} (g : Good s) : CapOut s 0 (colorArm s) := armOK_cap (colorArm_arm g)
-theorem sizeArm_cap {s : St} (g : Good s) : CapOut s 0 (sizeArm s) := armOK_cap (sizeArm_arm g)
-
-/-- one `parse_char` moves the cursor by at most `max R 1` when the pending repeat count is ≤ R -/
-theorem parseChar_cap {s : St} (g : Good s) (R : Nat) (hn : ∀ n ∈ s.nums, n ≤ R) (hx : s.x + max R 1 ≤ i32Max)
-    (hy : (s.y + max R 1) * 6 ≤ i32Max) (ch : Char) : CapOut s (max R 1) (parseChar s ch) := by
-  have hR : 1 ≤ max R 1 := by omega
-  unfold parseChar
-  split
-  · exact capOut_mono (sixelData_cap g (by omega) (by omega) ch) hR
-  · split
-    · exact ⟨⟨g.rows, g.height, g.palPos, g.palLe⟩, by simp only; omega, by simp only; omega⟩
-    split
-    · exact ⟨⟨g.rows, g.height, g.palPos, g.palLe⟩, by simp only; omega, by simp only; omega⟩
-    · have := andThen_cap (f := fun s' => sixelData s' ch) (k2 := 1) (colorArm_cap g)
-        (fun t gt h1 h2 => sixelData_cap gt (by omega) (by omega) ch)
-      exact capOut_mono this (by omega)
-  · split
-    · exact ⟨⟨g.rows, g.height, g.palPos, g.palLe⟩, by simp only; omega, by simp only; omega⟩
-    split
-    · exact ⟨⟨g.rows, g.height, g.palPos, g.palLe⟩, by simp only; omega, by simp only; omega⟩
-    · have := andThen_cap (f := fun s' => sixelData s' ch) (k2 := 1) (sizeArm_cap g)
-        (fun t gt h1 h2 => sixelData_cap gt (by omega) (by omega) ch)
-      exact capOut_mono this (by omega)
-  · split
-    · exact ⟨⟨g.rows, g.height, g.palPos, g.palLe⟩, by simp only; omega, by simp only; omega⟩
-    · split
-      · rename_i n hh
-        have hnR : n ≤ R := hn n (List.mem_of_mem_head? hh)
-        have h1 := repeatN_cap ch n g (by omega) (by omega)
-        have := andThen_cap (f := fun s' => Out.ok { s' with state := PState.read }) (k2 := 0) h1
-          (fun t gt h1 h2 => ⟨⟨gt.rows, gt.height, gt.palPos, gt.palLe⟩, by simp only; omega, by simp only; omega⟩)
-        exact capOut_mono this (by omega)
-      · trivial
-
-/-- monitor: at every point of the run all pending `parsed_numbers` (repeat counts, colour registers
-    and components, raster sizes) are ≤ R -/
-def numsLe (R : Nat) : St → List Char → Bool
-  | s, [] => s.nums.all (· ≤ R)
-  | s, c :: cs => s.nums.all (· ≤ R) && (match parseChar s c with | .ok s' => numsLe R s' cs | _ => true)
-
-theorem run_cap (R : Nat) (cs : List Char) {s : St} (g : Good s) (hm : numsLe R s cs = true)
-    (hx : s.x + cs.length * max R 1 ≤ i32Max) (hy : (s.y + cs.length * max R 1) * 6 ≤ i32Max) :
-    CapOut s (cs.length * max R 1) (run s cs) := by
-  induction cs generalizing s with
-  | nil => exact ⟨g, by simp, by simp⟩
-  | cons c cs ih =>
-    rw [run_cons]
-    simp only [numsLe, Bool.and_eq_true, List.all_eq_true, decide_eq_true_eq] at hm
-    simp only [List.length_cons, Nat.succ_mul] at hx hy ⊢
-    have h1 := parseChar_cap g R hm.1 (by omega) (by omega) c
-    have hm2 := hm.2
-    revert h1 hm2
-    cases parseChar s c with
-    | ok s1 =>
-      intro ⟨g1, hx1, hy1⟩ hm2
-      simp only [Out.andThen]
-      have h2 := ih g1 hm2 (by omega) (by omega)
-      revert h2
-      cases run s1 cs with
-      | ok s2 => intro ⟨g2, hx2, hy2⟩; exact ⟨g2, by omega, by omega⟩
-      | err e => intro _; trivial
-      | panic p => intro h; exact h
-      | huge => intro _; trivial
-    | err e => intro _ _; trivial
-    | panic p => intro h; exact h.elim
-    | huge => intro _ _; trivial
-
-/-! ### the cursor overflow is real: a closed form of `!<m>-` -/
 theorem sixelData_dash (s : St) (h : s.y + 1 ≤ i32Max) : sixelData s '-' = .ok { s with x := 0, y := s.y + 1 } := by
   have : ¬ s.y + 1 > i32Max := by omega
   simp [sixelData, this]
@@ -203,8 +20,8 @@ theorem repeat_dash (n : Nat) (s : St) (h : s.y + (n + 1) ≤ i32Max) :
     simp only [Nat.add_assoc, Nat.add_comm 1]
 
 /-- `!<m>-~` from the start state: `m` cursor-down moves, then a data character -/
-theorem cursor_panic (m : Nat) (hm : 0 < m) (h1 : m ≤ i32Max) (h2 : m * 6 + 6 > i32Max) (cs : List Char) :
-    run { state := .repeat_, nums := [m] } ('-' :: '~' :: cs) = .panic .cursorY6 := by
+theorem cursor_overflow_err (m : Nat) (hm : 0 < m) (h1 : m ≤ i32Max) (h2 : m * 6 + 6 > i32Max) (cs : List Char) :
+    run { state := .repeat_, nums := [m] } ('-' :: '~' :: cs) = .err .invalidPictureSize := by
   obtain ⟨n, rfl⟩ : ∃ n, m = n + 1 := ⟨m - 1, by omega⟩
   rw [run_cons]
   have hp : parseChar { state := .repeat_, nums := [n + 1] } '-' = .ok { y := n + 1, nums := [n + 1] } := by
@@ -215,14 +32,14 @@ theorem cursor_panic (m : Nat) (hm : 0 < m) (h1 : m ≤ i32Max) (h2 : m * 6 + 6 
   rw [hp]
   simp only [Out.andThen]
   rw [run_cons]
-  have h3 : parseChar { y := n + 1, nums := [n + 1] } '~' = .panic .cursorY6 := by
+  have h3 : parseChar { y := n + 1, nums := [n + 1] } '~' = .err .invalidPictureSize := by
     simp only [parseChar, sixelData, translate]
     rw [if_neg (by decide), if_neg (by decide), if_neg (by decide), if_neg (by decide), if_neg (by decide), if_neg (by decide),
       if_neg (by decide), if_neg (by decide), if_pos h2]
   rw [h3]; rfl
 
 theorem ok_andThen {α β : Type} (a : α) (f : α → Out β) : (Out.ok a).andThen f = f a := rfl
-theorem panic_andThen {α β : Type} (p : Site) (f : α → Out β) : (Out.panic p : Out α).andThen f = .panic p := rfl
+theorem err_andThen {α β : Type} (e : Err) (f : α → Out β) : (Out.err e : Out α).andThen f = .err e := rfl
 
 
 end IcyVerif.Sixel
